@@ -33,6 +33,13 @@ CLAIMS["C05"] = ("MIR dataflow at every io::Read::read call site (taint of the r
     "compressor parameter, tar member lookup, or anything about concrete bytes.",
     "DESIGN.md §3 C05")
 
+CLAIMS["C01"] = ("MIR call-resolution and dataflow on the merge coordinator: resolved selection callee and comparator closure, CFG dominance of the print calls by the wait condition, paired-update rule on the pending map and its shadow set, constant operands of the directory walker",
+    "Static necessary-condition check of the merge in processing_loop/recv_many_chan/main/process_path: the selection is the first minimum by "
+    "DateTime::cmp over a BTreeMap keyed by source index (PathId), printing is dominated by 'every live source has a pending message' and 'all "
+    "FileInfo received', pending sources are not polled, source indices follow argument order and directory walks are sorted. It decides the "
+    "structure of the merge, not that each reader yields its own messages in order, and not any concrete output.",
+    "DESIGN.md §3 C01")
+
 NA_REASON = {}
 
 checks = []
